@@ -43,10 +43,50 @@ AsSet(S) == Range(S)
 SegmentsOf(S) == {<<S[j], S[j+1]>> : j \in 1..(Len(S)-1)}
 Splittable(S) == {sg \in SegmentsOf(S) : sg[2] - sg[1] > 1}
 
+
+Clamp(k, n) == IF k > n THEN n ELSE IF k < 2 THEN 2 ELSE k     \* min(max(k,2),n) for n >= 2
+InSeq(x, s) == \E j \in 1..Len(s) : s[j] = x
+
+(* ---- C04: the output of threshold RDP is a recursive RDP partition ----- *)
+(* S: retained indices (sorted).  cls[p][q] \in {"accept","reject","nan"}: class of the endpoint- *)
+(* line cost of points S[p]..S[q] against t (R2 inverted), from the library's own cost primitive. *)
+(* far[p][q]: the interior indices of S[p]..S[q] that are farthest from the chord, up to noise.   *)
+(* ExplainClause returns "ok" iff positions p..q can be explained by recursive splits, else the   *)
+(* name of the clause of C04 that fails.                                                          *)
+RECURSIVE ExplainClause(_, _, _, _, _)
+ExplainClause(S, cls, far, p, q) ==
+    IF q = p + 1
+    THEN IF S[q] - S[p] <= 1 \/ cls[p][q] \in {"accept", "nan"} THEN "ok" ELSE "retained-segment-fits"
+    ELSE IF cls[p][q] \notin {"reject", "nan"} THEN "split-was-needed"
+    ELSE LET M == {m \in (p+1)..(q-1) : InSeq(S[m], far[p][q])}
+         IN IF M = {} THEN "split-at-farthest"
+            ELSE IF \E m \in M : ExplainClause(S, cls, far, p, m) = "ok" /\ ExplainClause(S, cls, far, m, q) = "ok"
+                 THEN "ok"
+                 ELSE LET m == CHOOSE m \in M : TRUE
+                          lc == ExplainClause(S, cls, far, p, m)
+                      IN IF lc # "ok" THEN lc ELSE ExplainClause(S, cls, far, m, q)
+Explainable(S, cls, far) == ExplainClause(S, cls, far, 1, Len(S)) = "ok"
+
+(* ---- C05: one step of the fixed-size chain ----------------------------- *)
+(* S, T: consecutive members of the chain (sorted index sequences).  far[a][b] / rank[a][b] are   *)
+(* tables over ORIGINAL indices a < b (1-based: index a is stored at a+1): farthest interior      *)
+(* indices and the noise-merged dense rank of the ordering score of segment (a,b).                *)
+SizeSpec(k, n) == Clamp(k, n)
+NewIndices(S, T) == Range(T) \ Range(S)
+SegmentAround(S, i) == CHOOSE sg \in SegmentsOf(S) : sg[1] < i /\ i < sg[2]
+GreedyClause(S, T, far, rank) ==
+    IF ~(Range(S) \subseteq Range(T)) \/ Cardinality(NewIndices(S, T)) # 1 THEN "nested"
+    ELSE LET i == CHOOSE x \in NewIndices(S, T) : TRUE
+         IN IF ~\E sg \in SegmentsOf(S) : sg[1] < i /\ i < sg[2] THEN "inside-retained-segment"
+            ELSE LET sg == SegmentAround(S, i)
+                 IN IF ~InSeq(i, far[sg[1]+1][sg[2]+1]) THEN "farthest-point"
+                    ELSE IF \E o \in Splittable(S) : rank[o[1]+1][o[2]+1] > rank[sg[1]+1][sg[2]+1]
+                         THEN "max-priority-segment"
+                         ELSE "ok"
+
 \* FirstAccepted over a chain: acc is a function k -> BOOLEAN on kmin..n
 FirstAccepted(acc, n) ==
     IF \E k \in 2..n : acc[k] THEN CHOOSE k \in 2..n : acc[k] /\ \A h \in 2..(k-1) : ~acc[h]
     ELSE n
-Clamp(k, n) == IF k < 2 THEN 2 ELSE IF k > n THEN n ELSE k
 MpSize(kstar, m, n) == LET mm == IF m > n THEN n ELSE m IN IF kstar >= mm THEN kstar ELSE mm
 =============================================================================
